@@ -64,8 +64,6 @@ MODES_QUICK = [
 ]
 MODES_THOROUGH = MODES_QUICK + [
     ("reverse:udp://192.0.2.53:99", "udp", b"x"),
-    ("reverse:https://example.com:443/", "tcp", HTTP_ORG),
-    ("upstream:https://192.0.2.8:8080", "tcp", HTTP_ABS),
     ("wireguard", "udp", DNSQ),
     ("tun", "udp", DNSQ),
     ("local:curl", "tcp", HTTP_ORG),
@@ -220,7 +218,9 @@ def observe(case):
             "upstream": len(w.servers),
             "to_client": len(w.client.w.data),
             "unread": len(w.client.r.buf),
-            "errors": [e[:160] for e in w.errors[:2]],
+            # errors of the decision itself: an exception escaping an addon hook, or a crash of the handler
+            # (protocol-level errors of an *accepted* connection's later life are not this property's subject)
+            "errors": [e[:160] for e in w.errors if "Addon error" in e or "has crashed" in e][:2],
             "crashed": crashed,
         }
         return obs
@@ -271,6 +271,19 @@ def observe_direct(case):
     return {"killed": bool(client.error), "client_error": client.error, "errors": errors, "crashed": None, "hooks": ["client_connected"]}
 
 
+def expected_refused(cls, bg, bp, local):
+    """the statement as a function: True / False, or None where it does not decide"""
+    if cls == "loopback" or local or not (bg or bp):
+        return False
+    if cls == "global":
+        return bg
+    if cls == "private":
+        return bp
+    if cls == "nonglobal":
+        return None if bp else False
+    return None
+
+
 def run_case(case, t: Tally, verbose=False):
     family, n = parse_peer(case["addr"])
     cls, blk = ianaref.classify(family, n)
@@ -292,7 +305,10 @@ def run_case(case, t: Tally, verbose=False):
 
     judged = True
     if blk.stdlib_varies:
-        t.note("skipped:stdlib-table %s (%s)" % (blk.prefix, blk.name))
+        # enumerated, not judged; the note records whether this interpreter's table happens to agree with the registry
+        want = expected_refused(cls, bg, bp, local)
+        agrees = "n/a" if want is None else ("agrees" if want == refused else "differs")
+        t.note("skipped:stdlib-table %s (%s) interpreter-vs-registry:%s" % (blk.prefix, blk.name, agrees))
         judged = False
     elif cls in ("undecided", "multicast"):
         t.note("not-judged:%s %s (%s)" % (cls, blk.prefix, blk.name))
@@ -393,9 +409,10 @@ def run(ctx):
     }
     ctx.log("%d spellings (%d v4 + %d v6 addresses), %d modes: %d direct cases, %d handler cases" % (
         len(items), len(a4), len(a6), len(modes), len(items) * 4 * len(modes), len(cases)))
-    par.pmap_tally(direct_chunk, items, ctx.tally, nchunks=64)
+    # one chunk per worker: the work per case is small, so pool overhead is kept minimal
+    par.pmap_tally(direct_chunk, items, ctx.tally, nchunks=par.NPROC)
     ctx.log("direct layer done")
-    par.pmap_tally(chunk_fn, cases, ctx.tally, nchunks=128)
+    par.pmap_tally(chunk_fn, cases, ctx.tally, nchunks=par.NPROC * 2)
     t = ctx.tally
     ctx.log("extra counters: %s" % dict(sorted(t.extra.items())))
     ctx.log("not judged: %d cases in %d blocks" % (sum(t.notes.values()), len(t.notes)))
